@@ -172,5 +172,5 @@ def run(ctx):
                 'path is non-trivial with >= 4 elements incl. fibre and amplifier, a history with >= 3 operation kinds; '
                 'distinct by content hash')
     c01.IMPORTS = 'Prelude Model.SI Run.C02'
-    c01.run_all(ctx, PROP, hist_oracle, path_oracle, 8, ctx.scale(100, 1500), ctx.scale(10, 100), ctx.scale(32, 400))
+    c01.run_all(ctx, PROP, hist_oracle, path_oracle, 8, ctx.scale(100, 1000), ctx.scale(10, 100), ctx.scale(32, 320))
     return common.finish(ctx, {})
